@@ -778,7 +778,7 @@ func (g *FuncGen) trField(env *Env, x *EField) Val {
 				c.declared[key] = true
 				saved := g.curBlock
 				g.curBlock = nil
-				g.assumeWellTyped(rv, f.Type(), g.entry)
+				c.global(func() { g.assumeWellTyped(rv, f.Type(), g.entry) })
 				g.curBlock = saved
 			}
 		}
@@ -853,7 +853,9 @@ func (g *FuncGen) trIndex(env *Env, x *EIndex) Val {
 					c.declared[key] = true
 					c.useQuant = true
 					v := fmt.Sprintf("(select (select %s qr) qk)", mvh)
-					c.assert(fmt.Sprintf("(forall ((qr Int) (qk %s)) (! %s :pattern (%s)))", c.sortOf(t.Key()), g.sliceWF(v, g.entry), v))
+					c.global(func() {
+						c.assert(fmt.Sprintf("(forall ((qr Int) (qk %s)) (! %s :pattern (%s)))", c.sortOf(t.Key()), g.sliceWF(v, g.entry), v))
+					})
 				}
 			}
 			return Val{T: fmt.Sprintf("(select %s %s)", g.mapVals(env.cur, t, base.T), idx.T), S: c.sortOf(t.Elem()), GT: t.Elem()}
